@@ -189,6 +189,12 @@ Definition normalise (c : cfg) (ls : list maddr) (peer : N) (a : maddr) : option
        | _ => Some (a ++ [P2p peer])
        end.
 
+(* protocol/transport_service.rs TransportService::add_known_address: /p2p/<peer> is appended to
+   every address that does not end in a peer id; the resulting set goes to the handle's
+   add_known_address *)
+Definition ts_prepare (peer : N) (l : list maddr) : list maddr :=
+  map (fun a => match last a (Other 0) with P2p _ => a | _ => a ++ [P2p peer] end) l.
+
 (* HashSet<Multiaddr>: the distinct accepted addresses (in no particular order) *)
 Fixpoint dedup (l : list maddr) : list maddr :=
   match l with
@@ -706,6 +712,11 @@ Definition dial_outcome (k : scorecfg) (s : store) (peer : N) (outcome : nat) (e
 Definition is_host (h : comp) : bool :=
   match h with Ip4 _ _ | Ip6 _ _ | Dns _ | Dns4 _ | Dns6 _ => true | _ => false end.
 
+(* dial_address's TriedToDialSelf test: the address itself or the address without its /p2p suffix
+   is in the listen set (which holds every listen address with and without /p2p/<local>) *)
+Definition own_listen (c : cfg) (ls : list maddr) (a : maddr) : bool :=
+  existsb (maddr_eqb a) (listen_set c ls) || existsb (maddr_eqb (strip_p2p a)) (listen_set c ls).
+
 (* the checks of TransportManager::dial_address, in the order of the code *)
 Definition dial_addr_check (c : cfg) (st : state) (a : maddr) : dial_addr_verdict :=
   match free_capacity c st 0 with
@@ -713,7 +724,8 @@ Definition dial_addr_check (c : cfg) (st : state) (a : maddr) : dial_addr_verdic
   | Some _ =>
       match last a (Other 0) with
       | P2p q =>
-          if existsb (maddr_eqb a) (listen_set c (lst st)) then DASelf
+          (* the node's own listen address, literally or under another peer id *)
+          if own_listen c (lst st) a then DASelf
           else
             match a with
             | h :: rest =>
